@@ -39,7 +39,7 @@ def showRes : Py Unit → String
   | .error e => "exc " ++ e.name
 
 def showRead (c : Cfg) (m : Bytes) : String :=
-  match readNdef c m with
+  match readBack c m with
   | .error e => "exc " ++ e.name
   | .ok none => "none"
   | .ok (some L) =>
